@@ -1346,7 +1346,7 @@ Proof.
       assert (L2 : (1 - u64) * (1 - u64) * (1 - u64) <= (1 + d1) * (1 + d1) * (1 + d2)).
       { pose proof u64_lt. apply Rmult_le_compat; try lra. apply Rmult_le_pos; lra. }
       cbn [pow]. rewrite Rmult_1_r. apply Rabs_le. pose proof u64_lt. nra. }
-    replace ((sh + ((x - c) * (1 + d1) * ((x - c) * (1 + d1)) * (1 + d2) + h2)) * (1 + d3) - (S0 + (x - c) * (x - c)))
+    replace ((sh + ((x - c) * (1 + d1) * ((x - c) * (1 + d1)) * (1 + d2) + h2)) * (1 + d3) - (S0 + T))
       with (((sh - S0) + (T * th + h2)) * (1 + d3) + d3 * (S0 + T)) by (unfold T, th; ring).
     eapply Rle_trans; [apply Rabs_triang|]. rewrite !Rabs_mult.
     pose proof (Rabs_1p d3 D3) as H1d.
@@ -1361,7 +1361,7 @@ Proof.
     assert (H2' : Rabs d3 * Rabs (S0 + T) <= u64 * (S0 + T)).
     { rewrite (Rabs_pos_eq (S0 + T)) by lra. apply Rmult_le_compat_r; lra. }
     (* closing: the three groups of terms *)
-    replace (S (length xs) + 3)%nat with (S (k + 3)) by (unfold k; lia).
+    replace (S k + 3)%nat with (S (k + 3)) by lia.
     cbn [pow]. rewrite S_INR.
     set (P := (1 + u64) ^ (k + 3)) in *. set (Pk := (1 + u64) ^ k) in *.
     assert (HP : (1 + u64) ^ 3 <= P) by (unfold P; apply pow1u_mono; lia).
